@@ -184,6 +184,46 @@ def programs(tier):
                                                    Bin("+", Bin("*", Var("r1"), Int(3)), Var("r2"))))
             p.fn("main", [], UNIT, Block([println(show_int(Call("run", Int(3))))], Unit))
             out.append({"prog": p, "family": "c08", "ident": f"c08:use-site={site}:captured={capkind}"})
+    # ---- captured variables of other types, each used ONLY through the operation that consumes a value of that type (the capture
+    # analysis has one arm per construct; the operand positions of those arms are what this family walks): receiver of a dyn call,
+    # of a trait call, of an inherent method; base of a field read / projection; cell of ref_get / ref_set; vector / array operand;
+    # scrutinee; operand of a dyn coercion; a string operand
+    typed_sites = {
+        "dyn-call-receiver": (TDyn("Tr"), ToDyn("Tr", Struct(TAdt("P2"), [("m", Int(7)), ("n", Int(9))])), lambda v: TCall("Tr", "tm", Var(v), Var("a"))),
+        "dyn-call-receiver-in-default-arm": (TDyn("Tr"), ToDyn("Tr", Struct(TAdt("P2"), [("m", Int(7)), ("n", Int(9))])),
+                                             lambda v: Match(Var("a"), [(PInt(0), Int(1)), (PWild, TCall("Tr", "tm", Var(v), Var("a")))])),
+        "trait-call-receiver": (TAdt("P2"), Struct(TAdt("P2"), [("m", Int(7)), ("n", Int(9))]), lambda v: TCall("Tr", "tm", Var(v), Var("a"))),
+        "trait-method-receiver": (TAdt("P2"), Struct(TAdt("P2"), [("m", Int(7)), ("n", Int(9))]), lambda v: TCall("Tr", "tm", Var(v), Var("a"), form="method")),
+        "to-dyn-operand": (TAdt("P2"), Struct(TAdt("P2"), [("m", Int(7)), ("n", Int(9))]), lambda v: Block([Let("dd", ToDyn("Tr", Var(v)), ty=TDyn("Tr"))], TCall("Tr", "tm", Var("dd"), Var("a")))),
+        "field-base": (TAdt("P2"), Struct(TAdt("P2"), [("m", Int(7)), ("n", Int(9))]), lambda v: Bin("+", Field(Var(v), "n"), Var("a"))),
+        "projection-base": (TTuple(INT32, INT32), Tuple(Int(11), Int(13)), lambda v: Bin("+", Proj(Var(v), 1), Var("a"))),
+        "ref-get-cell": (TRef(INT32), Call("ref", Int(21)), lambda v: Bin("+", Call("ref_get", Var(v)), Var("a"))),
+        "ref-set-cell": (TRef(INT32), Call("ref", Int(21)), lambda v: Block([Do(Call("ref_set", Var(v), Bin("+", Var("a"), Int(1))))], Var("a"))),
+        "vec-get-vector": (TVec(INT32), Call("vec_push", Call("vec_new", targs=(INT32,)), Int(31)), lambda v: Bin("+", Call("vec_get", Var(v), Int(0)), Var("a"))),
+        "array-get-array": (TArray(2, INT32), Array(Int(41), Int(43)), lambda v: Bin("+", Call("array_get", Var(v), Int(1)), Var("a"))),
+        "enum-scrutinee": (K, Ctor(K, "K1", Int(51)), lambda v: Match(Var(v), [(PCtor("K1", PVar("q")), Bin("+", Var("q"), Var("a"))), (PCtor("K0"), Int(0))])),
+        "string-operand": (STRING, Str("s"), lambda v: If(Bin("==", Bin("+", Var(v), Str("t")), Str("st")), Bin("+", Var("a"), Int(60)), Int(0))),
+        "bool-condition": (BOOL, Bool(True), lambda v: If(Var(v), Bin("+", Var("a"), Int(70)), Int(0))),
+    }
+    for site, (ty, init, use) in typed_sites.items():
+        for capkind in ("let", "param"):
+            p = Program(f"c08_tsite_{site.replace('-', '_')}_{capkind}")
+            prelude(p)
+            p.struct("P2", [("m", INT32), ("n", INT32)])
+            p.trait("Tr", [("tm", [INT32], INT32)])
+            p.impl("Tr", TAdt("P2"), [("tm", [("self", TAdt("P2")), ("a", INT32)], INT32, Bin("+", Bin("*", Field(Var("self"), "n"), Int(100)), Var("a")))])
+            p.impl("Tr", INT32, [("tm", [("self", INT32), ("a", INT32)], INT32, Bin("-", Int(-1), Var("a")))])
+            tail = Bin("+", Bin("*", Var("r1"), Int(3)), Var("r2"))
+            if site == "ref-set-cell":
+                tail = Bin("+", tail, Bin("*", Call("ref_get", Var("cv")), Int(1000)))
+            body = [Let("c", Lam([("a", INT32)], use("cv"))), Let("r1", CallV(Var("c"), Int(1))), Let("r2", CallV(Var("c"), Int(5)))]
+            if capkind == "let":
+                p.fn("run", [], INT32, Block([Let("cv", init, ty=ty)] + body, tail))
+                p.fn("main", [], UNIT, Block([println(show_int(Call("run")))], Unit))
+            else:
+                p.fn("run", [("cv", ty)], INT32, Block(body, tail))
+                p.fn("main", [], UNIT, Block([Let("arg", init, ty=ty), println(show_int(Call("run", Var("arg"))))], Unit))
+            out.append({"prog": p, "family": "c08", "ident": f"c08:typed-use-site={site}:captured={capkind}"})
     # captured *function-typed* variables used only as callee / only as argument / both, also inside nested closures
     for fkind in ("let-fnref", "param-fn"):
         for use in ("callee", "callee-twice", "argument", "callee-in-inner-closure", "callee-in-default-arm"):
